@@ -168,13 +168,24 @@ func keyConflictError(key string) error {
 	return gofakes3.ErrorInvalidArgument("key", key, "this backend stores keys as file paths: a key cannot be both an object and a prefix of other objects")
 }
 
+// uploadTempPrefix starts the names of the temporary files uploads are
+// streamed into. One may be left behind if the process dies mid-upload; it is
+// not an object and is never listed.
+const uploadTempPrefix = ".gofakes3-upload-"
+
+func isUploadTemp(name string) bool {
+	base := path.Base(filepath.ToSlash(name))
+	// the file modTimeResolution probes with can be left behind the same way
+	return strings.HasPrefix(base, uploadTempPrefix) || base == modTimeProbeName
+}
+
 // writeObjectFile streams input into the file at objectFilePath without ever
 // exposing a partial or rejected upload: the body goes to a temporary file in
 // the same directory, which replaces the destination only once all of it has
 // arrived and its length equals the declared size. A failed upload leaves the
 // previous object (or no object) behind.
 func writeObjectFile(fs afero.Fs, objectFilePath string, input io.Reader, size int64) (hash []byte, err error) {
-	tmp, err := afero.TempFile(fs, filepath.Dir(objectFilePath), ".gofakes3-upload-")
+	tmp, err := afero.TempFile(fs, filepath.Dir(objectFilePath), uploadTempPrefix)
 	if err != nil {
 		return nil, err
 	}
